@@ -37,6 +37,9 @@ extern "C" void verif_harness() {
     V r, rc, cr, a2 = a, a3 = a;
     if (op == 0) { r = a + b; rc = a + c; cr = c + a; a2 += b; a3 += c; } else if (op == 1) { r = a - b; rc = a - c; cr = c - a; a2 -= b; a3 -= c; }
     else if (op == 2) { r = a * b; rc = a * c; cr = c * a; a2 *= b; a3 *= c; } else { r = a / b; rc = a / c; cr = c / b; a2 /= b; a3 /= c; }
+    if (n1 > 0) { V al = a; double a0 = a[0];       // the scalar may be an element of the vector itself (v -= v[0])
+      if (op == 0) al += al[0]; else if (op == 1) al -= al[0]; else if (op == 2) al *= al[0]; else if (!(a0 == 0)) al /= al[0];
+      if (op != 3 || !(a0 == 0)) for (int i = 0; i < n1; i++) SYM_ASSERT_EQ(al[i], op == 0 ? a[i] + a0 : op == 1 ? a[i] - a0 : op == 2 ? a[i] * a0 : a[i] / a0, "vector (op)= one of its own elements: the element's value at the time of the call is not used throughout"); }
     SYM_ASSERT((int)r.size() == n1 && (int)rc.size() == n1 && (int)cr.size() == n1 && (int)a2.size() == n1 && (int)a3.size() == n1, "element-wise result has the wrong length");
     for (int i = 0; i < n1; i++) { double w = op == 0 ? a[i] + b[i] : op == 1 ? a[i] - b[i] : op == 2 ? a[i] * b[i] : a[i] / b[i];
       double wc = op == 0 ? a[i] + c : op == 1 ? a[i] - c : op == 2 ? a[i] * c : a[i] / c, wr = op == 0 ? c + a[i] : op == 1 ? c - a[i] : op == 2 ? c * a[i] : c / b[i];
